@@ -20,6 +20,7 @@ import (
 
 // QCfg is the drawn configuration of one queue-world run.
 type QCfg struct {
+	ClockSteps      bool     `json:"clock_steps,omitempty"`
 	Profile         string   `json:"profile"`
 	MemQueueSize    int64    `json:"mem_queue_size"`
 	MaxBytesPerFile int64    `json:"max_bytes_per_file"`
